@@ -1,4 +1,5 @@
 import EgVerif.Proofs.Retry
+import EgVerif.Proofs.RetryIR
 import EgVerif.Gen.FactsC10
 /-!
 # C10 — retry and time-limit policies bound attempts and waiting; one breaker record per request
@@ -225,6 +226,38 @@ theorem meet_spec (timeout : Nat) (b : Backend) (st : Nat) :
     (0 < timeout → meet timeout false .hang = .sendErr .deadline) := by
   refine ⟨by simp [meet], by simp [meet], by simp [meet], by simp [meet], fun h => by simp [meet, h]⟩
 
+/-! ### the payload of retried attempts -/
+
+/-- **Every attempt sends the client's full payload.** A buffered payload is re-read from the start for
+each attempt; a stream can be read only once — and a stream request makes at most one attempt
+(`stream_single_attempt`), so no attempt ever carries a drained (empty / truncated) body. This is why
+"streamed request bodies are never re-sent" matters. -/
+theorem attempt_sends_full_payload (pool : Pool) (pl : Payload) (permitted : Bool) (env : Env) :
+    ∀ b ∈ sentBodies pl (callsOf pool pl.isStream permitted env).length, b = pl.bytes := by
+  intro b hb
+  unfold sentBodies at hb
+  obtain ⟨k, hk, rfl⟩ := List.mem_map.mp hb
+  have hk' := List.mem_range.mp hk
+  cases pl with
+  | buffered s => rfl
+  | stream s =>
+    have h1 := stream_single_attempt pool permitted env
+    simp only [Payload.isStream] at hk'
+    have : k = 0 := by omega
+    subst this
+    simp [Payload.sent, Payload.bytes]
+
+/-- the judge's `payloadOK` accepts the model -/
+theorem payloadOK_model (pool : Pool) (pl : Payload) (permitted : Bool) (env : Env) :
+    payloadOK pl.bytes (sentBodies pl (callsOf pool pl.isStream permitted env).length) = true := by
+  unfold payloadOK
+  simp only [List.all_eq_true, beq_iff_eq]
+  exact attempt_sends_full_payload pool pl permitted env
+
+/-- were a stream retried, the second attempt would carry nothing: the clause is not vacuous -/
+example : sentBodies (.stream "payload") 2 = ["payload", ""] ∧
+    sentBodies (.buffered "payload") 3 = ["payload", "payload", "payload"] := by decide
+
 /-! ### circuit breaker -/
 
 /-- **Exactly one acquire and one record per client request**, however many retries it contained:
@@ -312,40 +345,189 @@ theorem spec_accepts_model (pool : Pool) (stream permitted : Bool) (env : Env)
       obtain ⟨st, hst⟩ := Option.ne_none_iff_exists'.mp hs
       simp [hst]
 
+/-! ### tie by translation (Extension resil): definitions regenerated from the Go source on every run
+
+`Gen.FactsC10IR.*IR` are produced by the go/ast → Lean micro-translator (`harness/factextract/irlib.go`,
+`facts_c10_ir.go`) from the *bodies* of the Go functions; the theorems below (proofs: `Proofs/RetryIR.lean`,
+same names) show them equal to the hand-written model for all inputs. A changed comparison, a dropped
+`return`, a swapped `select` body, another wrapper order … changes the generated definition and breaks
+the corresponding theorem. -/
+
+/-- `RetryPolicy.Wrap`'s closure = the generic mirror `wrapG`, for **every** float algebra (so for
+`float64`), policy, handler behaviour, jitter and cancellation oracle. -/
+theorem wrap_regenerated_from_source :
+    Gen.FactsC10IR.extractionFailed = false ∧
+    ∀ {F : Type} (A : FloatOps F) (p : RetryPolicy) (f : F)
+      (h : Nat → Option Nat → Option SPErr × Option Nat) (env : EnvG) (resp0 : Option Nat),
+      Gen.FactsC10IR.wrapIR A p f h env resp0 = wrapG A p f h env resp0 :=
+  ⟨by decide, fun A p f h env resp0 => Retry.wrap_regenerated_from_source A p f h env resp0⟩
+
+theorem createWrapper_regenerated_from_source :
+    Gen.FactsC10IR.extractionFailed = false ∧
+    ∀ (wd0 : Int) (ws : String) (parse : String → Int × Bool),
+      Gen.FactsC10IR.createWrapperIR wd0 ws parse = createWrapperG wd0 ws parse ∧
+      (createWrapperG wd0 ws parse : Int) =
+        (createWrapper (if ws != "" then (parse ws).1 else wd0) : Nat) :=
+  ⟨by decide, fun wd0 ws parse => ⟨Retry.createWrapper_regenerated_from_source wd0 ws parse, rfl⟩⟩
+
+/-- `ServerPool.doHandle` = the model's classification (no server ⇒ 503 internalError … deadline ⇒ 408
+timeout, client gone ⇒ 499, failure code keeps the response). -/
+theorem doHandle_regenerated_from_source :
+    Gen.FactsC10IRp.extractionFailed = false ∧
+    ∀ (fc : List Nat) (o : DoEnv) (resp0 : Option Nat),
+      Gen.FactsC10IRp.doHandleIR fc o resp0 = doHandle fc o.attempt resp0 :=
+  ⟨by decide, Retry.doHandle_regenerated_from_source⟩
+
+/-- `ServerPool.handle` (mirror = false, cache miss) = the model's `handle`: retry wrapper first and only
+for non-stream requests, circuit breaker outermost, the result / status mapping of the three outcomes. -/
+theorem handle_regenerated_from_source :
+    Gen.FactsC10IRp.extractionFailed = false ∧
+    ∀ (pool : Pool) (stream permitted : Bool) (env : Env),
+      Gen.FactsC10IRp.handleIR pool stream permitted env = handle pool stream permitted env :=
+  ⟨by decide, Retry.handle_regenerated_from_source⟩
+
+/-- the handler closure inside `handle`: the pool timeout is applied to the context of every single
+call (so inside the retry loop), and `spCtx.resp` / `stdReq` / `stdResp` are reset before `doHandle` — which
+is why the model's `handler` passes `none` to `doHandle` and `meet` sees the deadline per attempt. -/
+theorem handler_regenerated_from_source :
+    Gen.FactsC10IRp.extractionFailed = false ∧
+    ∀ (timeout : Int) (resp0 : Option Nat),
+      Gen.FactsC10IRp.handlerIR timeout resp0 = (decide (timeout > 0), none, true) :=
+  ⟨by decide, Retry.handler_regenerated_from_source⟩
+
+/-- the wrapper composition for a pool with both policies: breaker around retry around the closure;
+a stream request skips the retry wrapper -/
+example :
+    let pool : Pool := ⟨[], some ⟨3, 1000, false, 0, 1⟩, true⟩
+    let env : Env := ⟨fun _ => .sendErr .none, fun _ => 0, fun _ => false⟩
+    (calls (Gen.FactsC10IRp.handleIR pool false true env).events).length = 3 ∧
+    (calls (Gen.FactsC10IRp.handleIR pool true true env).events).length = 1 ∧
+    (Gen.FactsC10IRp.handleIR pool false true env).cbRecords = [true] ∧
+    (Gen.FactsC10IRp.handleIR pool false false env).result = "shortCircuited" := by
+  decide
+
+/-- **The regenerated closure refines the model the theorems above are about**: with any float algebra
+it makes the same handler calls, sleeps and stop, in the same order, and returns the same error and
+response as `retryLoopWith` (what `inner` / `handle` run). Hence `attempts_le_max`,
+`stops_at_first_success`, `cancel_stops`, `retries_until_max`, `result_is_last_attempt` hold of the
+regenerated definition, not only of the hand-written one. -/
+theorem wrap_ir_refines_model {F : Type} (A : FloatOps F) (p : RetryPolicy) (f : F)
+    (h : Nat → Option Nat → Option SPErr × Option Nat) (env : EnvG) (envM : Env)
+    (hd : ∀ k, envM.done k = env.done k) (resp0 : Option Nat) :
+    let R := Gen.FactsC10IR.wrapIR A p f h env resp0
+    let M := retryLoopWith h p envM p.maxAttempts.toNat 0 (none, resp0)
+    R.events.map EventG.skel = M.events.map Event.skel ∧ R.err = M.err ∧ R.resp = M.resp :=
+  wrapIR_refines_model A p f h env envM hd resp0
+
+/-- … e.g. attempt counting, directly for the regenerated closure wrapped around the pool's handler -/
+theorem wrap_ir_attempts_le_max {F : Type} (A : FloatOps F) (p : RetryPolicy) (f : F) (fc : List Nat)
+    (env : EnvG) (envM : Env) (hd : ∀ k, envM.done k = env.done k) :
+    ∃ m, m ≤ p.maxAttempts.toNat ∧
+      callsS ((Gen.FactsC10IR.wrapIR A p f (handler fc envM) env none).events.map EventG.skel) =
+        List.range' 0 m := by
+  obtain ⟨h1, _, _⟩ := wrapIR_refines_model A p f (handler fc envM) env envM hd none
+  obtain ⟨m, hm, _, hc⟩ := calls_range fc p envM p.maxAttempts.toNat 0 (none, none)
+  refine ⟨m, hm, ?_⟩
+  rw [h1, ← calls_eq_callsS]
+  exact hc
+
+/-- a toy float algebra (integers, `1.5 ↦ 1`) — the logic theorems do not care -/
+def intOps : FloatOps Int := ⟨id, (· + ·), (· - ·), (· * ·), id, fun m e => m / 10 ^ e⟩
+
+/-- three attempts: 500 (failure code), network error, 200: two sleeps, then success -/
+example :
+    let h : Nat → Option Nat → Option SPErr × Option Nat :=
+      handler [500] ⟨fun k => if k = 0 then .resp 500 else if k = 1 then .sendErr .none else .resp 200,
+        fun _ => 0, fun _ => false⟩
+    (Gen.FactsC10IR.wrapIR intOps ⟨5, 1000, true, 0, 1⟩ 0 h ⟨fun _ _ => 0, fun _ => false⟩ none) =
+      ⟨[.call 0, .sleep 0 1000, .call 1, .sleep 1 1000, .call 2], none, some 200⟩ := by
+  decide
+
+/-- cancellation at the second `select` -/
+example :
+    let h : Nat → Option Nat → Option SPErr × Option Nat :=
+      handler [] ⟨fun _ => .sendErr .none, fun _ => 0, fun _ => false⟩
+    (Gen.FactsC10IR.wrapIR intOps ⟨5, 1000, false, 0, 1⟩ 0 h ⟨fun _ _ => 0, fun k => k == 1⟩ none).events =
+      [.call 0, .sleep 0 1000, .call 1, .stop 1] := by
+  decide
+
+/-! ### waiting: exact durations and the exact bound on total waiting
+
+For the **exact rational instance** `ratOps` of the float algebra (rounding of `float64` is not modelled).
+The statement says "waits at least the configured back-off between attempts"; the code waits a back-off
+after *every* failed attempt, the last one included (DESIGN §10.3), so the total waiting of one wrapped
+call is bounded by the sum over all `maxAttempts` back-offs — not `maxAttempts − 1`. -/
+
+/-- **Exact back-off**: the `j`-th sleep lasts `⌊d_j⌋` ns, `d_j = base_j − base_j·f + r_j`,
+`base_j = wait·1.5^j` (exponential) or `wait`; and `base_j(1−f) ≤ d_j ≤ base_j(1+f)` under `rand.Intn`'s
+contract `0 ≤ r < n`. -/
+theorem backoff_exact (p : RetryPolicy) (f : Rat) (h : Nat → Option Nat → Option SPErr × Option Nat)
+    (env : EnvG) (resp0 : Option Nat) (j : Nat) (dur : Int)
+    (hm : EventG.sleep j dur ∈ (Gen.FactsC10IR.wrapIR ratOps p f h env resp0).events) :
+    j < p.maxAttempts.toNat ∧ dur = truncQ (durQ p f env j) ∧
+    (0 ≤ f → JitterOK env →
+      baseQ p j * (1 - f) ≤ durQ p f env j ∧ durQ p f env j ≤ baseQ p j * (1 + f)) := by
+  rw [Retry.wrap_regenerated_from_source] at hm
+  unfold wrapG at hm
+  rw [ofInt_wait_ratOps] at hm
+  obtain ⟨_, h2, h3⟩ := wrapLoopG_sleeps h p f env _ 0 _ j dur hm
+  exact ⟨by omega, h3, fun hf hj => durQ_bounds p f env j hf hj⟩
+
+/-- **Total waiting is bounded** by `Σ_{k<maxAttempts} base_k·(1+f)` — `maxAttempts·wait·(1+f)` for the
+fixed and `2·wait·(1+f)·(1.5^maxAttempts − 1)` for the exponential policy — and at most `maxAttempts`
+back-offs are waited. -/
+theorem total_wait_bounded (p : RetryPolicy) (f : Rat) (h : Nat → Option Nat → Option SPErr × Option Nat)
+    (env : EnvG) (resp0 : Option Nat) (hf : 0 ≤ f) (hf1 : f ≤ 1) (hj : JitterOK env) :
+    let evs := (Gen.FactsC10IR.wrapIR ratOps p f h env resp0).events
+    let n := p.maxAttempts.toNat
+    ((sleepTotal evs : Int) : Rat) ≤
+      (if p.exponential then 2 * (p.wait : Rat) * (1 + f) * ((3 / 2) ^ n - 1)
+       else (n : Rat) * (p.wait : Rat) * (1 + f)) ∧
+    sleepCount evs ≤ n := by
+  simp only
+  rw [Retry.wrap_regenerated_from_source]
+  unfold wrapG
+  rw [ofInt_wait_ratOps]
+  obtain ⟨h1, _, h3⟩ := wrapLoopG_total_le h p f env hf hf1 hj p.maxAttempts.toNat 0 (none, resp0)
+  rw [capFrom_closed] at h1
+  simp only [Nat.zero_add, pow_zero] at h1
+  exact ⟨h1, h3⟩
+
+/-- **The bound's `maxAttempts` (not `maxAttempts − 1`) terms are all used**: if every attempt fails and
+the client stays, the closure's events are `call 0, sleep 0, …, call (m−1), sleep (m−1)` — one back-off is
+waited after the last failed attempt, before the error is returned. -/
+theorem waits_after_last_failed_attempt {F : Type} (A : FloatOps F) (p : RetryPolicy) (f : F)
+    (h : Nat → Option Nat → Option SPErr × Option Nat) (env : EnvG) (resp0 : Option Nat)
+    (hfail : ∀ k r, (h k r).1.isSome = true) (hnd : ∀ k, env.done k = false) :
+    (Gen.FactsC10IR.wrapIR A p f h env resp0).events.map EventG.skel =
+      (List.range' 0 p.maxAttempts.toNat).flatMap (fun j => [Skel.call j, Skel.sleep j]) := by
+  rw [Retry.wrap_regenerated_from_source]
+  exact wrapLoopG_all_fail A h p.exponential f env hfail hnd _ _ _ _
+
+/-- non-vacuity: `rand.Intn ↦ 0` meets the contract; `f = 1/2` is in range -/
+example : JitterOK ⟨fun _ _ => 0, fun _ => false⟩ ∧ (0 : Rat) ≤ 1 / 2 ∧ (1 / 2 : Rat) ≤ 1 :=
+  ⟨fun _ _ => ⟨le_refl _, fun h => h⟩, by norm_num, by norm_num⟩
+
+/-- wait 1000 ns, exponential, three failing attempts: three sleeps (1000, 1500, 2250 ns) -/
+example : baseQ ⟨3, 1000, true, 0, 1⟩ 2 = 2250 := by
+  simp only [baseQ, if_true]; norm_num
+
 /-! ### facts re-derived from the source on every run -/
 
 theorem source_facts :
     Gen.FactsC10.extractionFailed = false ∧
-    -- RetryPolicy.Wrap: `for attempt := 0; attempt < p.MaxAttempts; …`, handler first, nil ⇒ return,
-    -- one handler call per iteration, select between ctx.Done (return err) and the timer
-    Gen.FactsC10.retryLoopCond = "attempt < p.MaxAttempts" ∧
-    Gen.FactsC10.retryLoopFirstStmt = "err = handler(ctx)" ∧
-    Gen.FactsC10.retryReturnsOnNil = true ∧ Gen.FactsC10.retryHandlerCalls = 1 ∧
-    Gen.FactsC10.retrySelectCases = ["<-ctx.Done() => return err", "<-time.After(time.Duration(d)) => "] ∧
-    Gen.FactsC10.retryGrowth = "base *= 1.5" ∧
-    Gen.FactsC10.retryDelta = "base * p.RandomizationFactor" ∧
-    Gen.FactsC10.retryDuration = "base - delta + float64(rand.Intn(int(delta*2+1)))" ∧
-    Gen.FactsC10.retryDefaultWait = "p.waitDuration = time.Millisecond * 500" ∧
+    -- (RetryPolicy.Wrap's loop, select, back-off arithmetic and the 500 ms default are tied by
+    -- `wrap_/createWrapper_regenerated_from_source`; the printed-statement facts that used to stand here
+    -- alarmed on mere renames)
     -- breaker wrapper: one acquire, one handler call, record sites = normal path + panic path
+    -- (its body is tied by C08's `wrap_regenerated_from_source`)
     Gen.FactsC10.cbAcquireCalls = 1 ∧ Gen.FactsC10.cbRecordCalls = 2 ∧ Gen.FactsC10.cbHandlerCalls = 1 ∧
     Gen.FactsC10.cbRecordsErrFlag = true ∧
-    -- handle: retry (non-stream only) applied first, breaker outermost; per-attempt reset; timeout ctx
-    Gen.FactsC10.handleWraps =
-      ["sp.retryWrapper != nil && !spCtx.req.IsStream() => sp.retryWrapper.Wrap(handler)",
-       "sp.circuitBreakerWrapper != nil => sp.circuitBreakerWrapper.Wrap(handler)"] ∧
-    Gen.FactsC10.handleResets = ["spCtx.stdReq", "spCtx.resp", "spCtx.stdResp"] ∧
-    Gen.FactsC10.handleTimeoutContext = true ∧ Gen.FactsC10.handleCalls = 1 ∧
-    -- doHandle: the classification table, one transport call
-    Gen.FactsC10.doHandleErrors =
-      ["serverPoolError{http.StatusServiceUnavailable, resultInternalError}",
-       "serverPoolError{http.StatusInternalServerError, resultInternalError}",
-       "serverPoolError{http.StatusServiceUnavailable, resultServerError}",
-       "serverPoolError{http.StatusRequestTimeout, resultTimeout}",
-       "serverPoolError{499, resultClientError}",
-       "serverPoolError{http.StatusInternalServerError, resultInternalError}",
-       "serverPoolError{resp.StatusCode, resultFailureCode}"] ∧
+    -- handle: timeout context (wrapper order, resets, the single call of the composed handler and the
+    -- result mapping: `handle_/handler_regenerated_from_source`)
+    Gen.FactsC10.handleTimeoutContext = true ∧
+    -- doHandle: one transport call (classification: `doHandle_regenerated_from_source`)
     Gen.FactsC10.doHandleSends = 1 ∧
-    Gen.FactsC10.doHandleCtxTests = ["err == nil", "err == stdcontext.DeadlineExceeded"] ∧
     Gen.FactsC10.resultConsts =
       ["resultInternalError=\"internalError\"", "resultClientError=\"clientError\"",
        "resultServerError=\"serverError\"", "resultFailureCode=\"failureCode\"",
